@@ -47,11 +47,20 @@ def _lifecycle_path(rec, opt):
         completed = False
         last_fetch = None
         ok_sticky, ok_fetch = True, True
+        last_probe = None
+        frozen = None
         for name, val in log:
             if name == "init":
-                completed, last_fetch = False, None
+                completed, last_fetch, frozen = False, None, None
                 if val != 0:
                     rec.oblig("set-up returns 0", "violated", val, 0, desc)
+            elif name == "probe":
+                sig = _sig(I, val)
+                if frozen is not None and sig != frozen:
+                    ok_sticky = False
+                if completed and frozen is None:
+                    frozen = sig            # state/time/record count right after completion: must never change again
+                last_probe = sig
             elif name in ("iterate", "iterate_n", "run"):
                 if completed and val:
                     ok_sticky = False
@@ -66,17 +75,44 @@ def _lifecycle_path(rec, opt):
                 last_fetch = sig
             elif name == "sample":
                 last_fetch = None              # an explicit sample call may add a record
+                frozen = None
             elif name == "progress":
                 pass
         rec.oblig("a completed simulation stays completed (loop calls keep returning 'finished')", "holds" if ok_sticky else "violated", "", 0, desc)
         rec.oblig("output fetched repeatedly (and after further calls on a completed simulation) is identical", "holds" if ok_fetch else "violated", "", 0, desc)
         if not ok_sticky:
-            rec.violation("lifecycle-not-sticky:%s" % opt, "a loop call reported 'continue' after completion (%s)" % desc, {"structure": desc})
+            rec.violation("lifecycle-not-sticky:%s" % opt, "a loop call on a completed simulation reported 'continue' or changed its time / state / number of records (%s)" % desc, {"structure": desc},
+                          replayed=_replay_sticky(opt, kind))
         if not ok_fetch:
             rec.violation("lifecycle-fetch-differs:%s" % opt, "two output fetches without an intervening step differ (%s)" % desc, {"structure": desc})
         # clean slate: everything after the LAST set-up equals what a fresh process gives (checked for the deterministic engine)
         rec.extra.setdefault("logs", {})
     return on_path
+
+
+def _replay_sticky(opt, kind):
+    """real build: run to completion, iterate 5 more times: progress, time and output must not move"""
+    try:
+        from ..enginelegs import make_script
+        from ..glue import real_engine
+        sd = ("grid", 2, 1, 1, 1) if kind == "grid" else ("graph", "pair")
+        system = catalogue.build("AB_rev", sd)
+        system.state = [25.0] * (2 * system.space.size())
+        for seed in (1, 2, 3):
+            e = real_engine(opt)
+            e.setup(make_script(system, opt, 0.125, policy="on_iteration", t_max=0.5, isp="auto", seed=seed))
+            k = 0
+            while e.iterate() and k < 10 ** 6:
+                k += 1
+            p0, o0 = e.get_progress(), e.get_output()
+            rets = [e.iterate() for _ in range(5)] + [e.iterate_n(3), e.run(0)]
+            p1, o1 = e.get_progress(), e.get_output()
+            e.finalize()
+            if any(rets) or p0 != p1 or list(o0.data.value) != list(o1.data.value) or list(o0.t.value) != list(o1.t.value):
+                return True
+        return False
+    except Exception:
+        return False
 
 
 def _work(rec, item):
@@ -90,7 +126,7 @@ def _work(rec, item):
             _lifecycle_path(rec, opt)(I, log, desc, kind, named_s)
             logs.append([(n, _sig(I, v)) for n, v in log])
         scen = dict(net="AB_rev", space=sd, option=opt, policy="on_t_sample", isp="none", n_req=2, calls=calls,
-                    fields=("t_sample",) if opt != "euler" else ("state", "t_sample"), unwind=3, max_paths=200 if opt == "euler" else 60, tmax=0.3)
+                    fields=("t_sample",) if opt != "euler" else ("state", "t_sample"), unwind=3, max_paths=200 if opt == "euler" else 60, tmax=0.3, probes=True)
         n = sym_sequence(rec, scen, on_path=grab)
         rec.vacuity_witness("%s %s" % (opt, ",".join(calls)), n > 0, "%d paths" % n)
         # clean slate after a new set-up (deterministic engine: logs are functions of the inputs only)
